@@ -465,7 +465,13 @@ func (k *l1Kind) snapshot() tr.M {
 			var fired bool
 			how := "auth"
 			if q%2 == 1 {
-				how, at = "io", 1+rng.Intn(6)
+				// (counted first on the same query)
+				if err := iofault.Arm(k.dbPath(), iofault.Read, 0); err != nil {
+					panic(err)
+				}
+				_, _ = k.node.GetL1InfoTreeMerkleProofFromIndexToRoot(ctx, uint32(p), r.Hash)
+				_, n := iofault.Disarm()
+				how, at = "io", 1+rng.Intn(max(n, 1))
 				if err := iofault.Arm(k.dbPath(), iofault.Read, at); err != nil {
 					panic(err)
 				}
